@@ -621,6 +621,7 @@ pub fn c12(thorough: bool, rng: &mut Rng, out: &mut Out) {
     }
     let (nw, steps) = if thorough { (60_000, 150) } else { (1_500, 60) };
     run_walks("C12", rng, out, nw, steps, 3);
+    extreme_geometries("C12", thorough, out);
     if thorough {
         // 70000 accepted chunks: the chunk counter must not overflow
         let mut l = format!("vbus M,0003 RO,0003,0 SD,0000,{} CS,0001 RO,0003,1", to_hex(&tiny_cfg(2, 8, false)));
@@ -725,6 +726,92 @@ pub fn c13(thorough: bool, rng: &mut Rng, out: &mut Out) {
     bfs(out, PageFlipStyle::Automatic, cap);
     let (nw, steps) = if thorough { (30_000, 150) } else { (600, 60) };
     run_walks("C13", rng, out, nw, steps, 1);
+    known_header_variants(out);
+}
+
+/// Complete, legal sessions on signs of extreme configured geometry (far wider or taller than any catalogued
+/// sign: up to 1020 columns, up to 255 rows): configure, transfer two exact pages, finish, flip through them,
+/// say goodbye.  Everything the sign does with a stored page (including rendering it for the log — the harness
+/// installs a formatting logger) happens here on sizes no real sign has.
+pub fn extreme_geometries(prop: &str, thorough: bool, out: &mut Out) {
+    let mut geos: Vec<(u32, u32, bool)> = vec![(256, 7, false), (257, 7, false), (300, 16, false), (1020, 1, false), (255, 255, true), (1, 255, false), (255, 1, true)];
+    if thorough {
+        geos.extend_from_slice(&[(1020, 255, false), (511, 9, false), (258, 64, false), (1, 1, true)]);
+    }
+    for (w, h, horizon) in geos {
+        for style in ["M", "A"] {
+            let mut line = format!("vbus {},0005 HE,0005 RO,0005,0 SD,0000,{} CS,0001 QS,0005 RO,0005,1", style, to_hex(&tiny_cfg(w, h, horizon)));
+            let mut n = 0;
+            for id in [1u8, 2] {
+                let mut page = Page::new(PageId(id), w, h);
+                page.set_pixel(w - 1, h - 1, true);
+                page.set_pixel(0, 0, true);
+                for (ci, c) in page.as_bytes().chunks(16).enumerate() {
+                    line.push_str(&format!(" SD,{:04X},{}", ci * 16, to_hex(c)));
+                    n += 1;
+                }
+            }
+            line.push_str(&format!(" CS,{:04X} QS,0005 PC,0005 QS,0005 RO,0005,2 QS,0005 QS,0005 RO,0005,3 QS,0005 QS,0005 RO,0005,2 QS,0005 GB,0005 QS,0005", n));
+            let i = out.case(line, true);
+            out.stat("vsign.extreme-geometry");
+            if out.impls[i].contains("PANIC") {
+                out.fail(i, format!("{} a virtual sign configured as {}x{} panicked during a complete legal session", prop, w, h));
+            }
+        }
+    }
+}
+
+/// Configuration blocks that carry a KNOWN type code but a geometry that disagrees with the catalogue (blank,
+/// partly blank, one off): the sign's size is what the geometry bytes say, so a page of the catalogued size
+/// must not be stored unless the two happen to need the same number of bytes, and whatever is stored has the
+/// derived dimensions.
+fn known_header_variants(out: &mut Out) {
+    for t in TYPES {
+        let base = t.to_bytes().to_vec();
+        let fam = base[0];
+        let (hi, wis): (usize, Vec<usize>) = if fam == 4 { (4, vec![5, 6, 7, 8]) } else { (5, vec![7]) };
+        let mut variants: Vec<Vec<u8>> = vec![];
+        let mut v = base.clone();
+        v[hi] = 0;
+        variants.push(v);
+        let mut v = base.clone();
+        for &k in &wis {
+            v[k] = 0;
+        }
+        variants.push(v.clone());
+        v[hi] = 0;
+        variants.push(v);
+        let mut v = base.clone();
+        v[hi] = v[hi].wrapping_add(8);
+        variants.push(v);
+        let mut v = base.clone();
+        v[wis[0]] = v[wis[0]].wrapping_sub(1);
+        variants.push(v);
+        let mut v = base.clone();
+        v[wis[0]] = 0;
+        variants.push(v);
+        for b in variants {
+            let (w, h) = if fam == 4 { (b[5] as u32 + b[6] as u32 + b[7] as u32 + b[8] as u32, b[4] as u32) } else { (b[7] as u32, b[5] as u32) };
+            let (cw, ch) = t.dimensions();
+            for (pw, ph) in [(cw, ch), (w, h)] {
+                let page = Page::new(PageId(3), pw, ph);
+                let mut line = format!("vbus M,0005 RO,0005,0 SD,0000,{} CS,0001 RO,0005,1", to_hex(&b));
+                let mut n = 0;
+                for (ci, c) in page.as_bytes().chunks(16).enumerate() {
+                    line.push_str(&format!(" SD,{:04X},{}", ci * 16, to_hex(c)));
+                    n += 1;
+                }
+                line.push_str(&format!(" CS,{:04X} QS,0005", n));
+                let i = out.case(line, true);
+                out.stat("vsign.known-code-other-geometry");
+                if let Some((vw, vh, _)) = vsign_page_after_config(&b, &page) {
+                    if (vw, vh) != (w, h) {
+                        out.fail(i, format!("C13 a virtual sign configured with block {} (geometry bytes say {}x{}) holds a {}x{} page", to_hex(&b), w, h, vw, vh));
+                    }
+                }
+            }
+        }
+    }
 }
 
 pub fn c14(thorough: bool, rng: &mut Rng, out: &mut Out) {
